@@ -149,7 +149,7 @@ def overdraft(case):
 
 
 # ----------------------------------------------------------------------------- yearly summary
-def yearly(case, fractions, to_day, from_day):
+def yearly(case, fractions, to_day, from_day, brk=False):
     """fractions: dump entries of the unfiltered run (with figures).  -> {(year,type,long): [crypto, fiat, cost, gain]} (Decimal sums)"""
     evs = {}
     for e in hist.taxable_oracle(case):
@@ -161,6 +161,8 @@ def yearly(case, fractions, to_day, from_day):
             # the implementation's fraction names a row that is no taxable transaction of the input: a line no summary can have
             e = {"ts": [0, 0], "type": f"row {f['ev']} (no taxable transaction of the input)"}
         elif to_day is not None and hist.local_day(e["ts"]) > to_day:
+            if brk:        # the shape of finding F9: the summary stops at the first fraction dated after the to-date
+                break
             continue
         key = (hist.local_year(e["ts"]), e["type"], f["long"])
         if key not in lines:
